@@ -174,18 +174,17 @@ CHECKS = {
         design="DESIGN.md §5 C02",
         technique="Coq proof (same inductive invariant; vi_clean / vi_dae clauses) + micro-step-log differential correspondence with close-order scenarios"),
     "C06": dict(
-        text=("7 theorems (Props/C06.v): the allocator returns the FIRST free identifier on the cyclic walk, never 0, within 1..MAX_CHANNEL, and reports exhaustion only when the 1024 "
+        text=("9 theorems (Props/C06.v): the allocator returns the FIRST free identifier on the cyclic walk, never 0, within 1..MAX_CHANNEL, and reports exhaustion only when the 1024 "
               "successors are all occupied (any MAX_CHANNEL, any occupancy); in EVERY reachable state of the two-ended system — incl. wrap-around — open flows on each end own pairwise "
               "distinct non-zero identifiers and the channel table holds exactly the open wrappers (registration invariant over all micro-step sequences); a message for an unregistered "
-              "identifier changes nothing; a message for a registered one touches only that flow. UDP/DNS identifiers share the allocator and are covered by C10/C11's model."),
+              "identifier changes nothing; a message for a registered one touches only that flow; RE-USE across the tunnel: in every reachable non-stale state, when the CONNECT of a re-used identifier is the next frame for the server, the server has already freed it (c06_peer_frees_first: the peer frees an identifier before it sees its re-use; Proofs/Stream_assert.v) and older incarnations sharing an identifier on one end are closed. UDP/DNS identifiers share the allocator and are covered by C10/C11's model."),
         note="as C01; the UDP/DNS closures registered in the same table are modelled in Model/Dgram.v (C10/C11), not in the stream model.",
         design="DESIGN.md §5 C06",
         technique="Coq proof (allocator lemmas by induction on the walk; registration invariant by induction over events) + micro-step-log correspondence with tiny identifier spaces"),
     "C08": dict(
-        text=("6 theorems (Props/C08.v): a Proxy.callback never raises for any errno of recv/send/shutdown and any connect result among in-progress, connected and NET_ERRS+EACCES+EPERM; "
+        text=("8 theorems (Props/C08.v): a Proxy.callback never raises for any errno of recv/send/shutdown and any connect result among in-progress, connected and NET_ERRS+EACCES+EPERM; "
               "a socket error shuts that socket both ways; a callback of flow g (faulty or not) changes no wrapper and no pipeline view of any other flow; identifier exhaustion drops only "
-              "the new connection; in every reachable state the dispatcher raises on no frame except through the CONNECT assertion or an unhandled connect errno (PARTIAL: that the "
-              "assertion never fires — the peer frees an identifier before seeing its re-use — is stated as c08_connect_assert_never_fires_full and not proved). UDP/DNS faults (F3, F4, F10, F16, all fixed) are C10/C11's theorems."),
+              "the new connection; in every reachable state the dispatcher raises on no frame except through the CONNECT assertion or an unhandled connect errno, and in every reachable state without a stale delivery (no frame of an older incarnation reached a wrapper — C06's exclusion) the CONNECT assertion NEVER fires (c08_connect_assert_never_fires, proved in Proofs/Stream_assert.v from the registration, alignment, view and two new history invariants), so only an unhandled connect errno can make the dispatcher raise (c08_dispatch_no_crash). UDP/DNS faults (F3, F4, F10, F16, all fixed) are C10/C11's theorems."),
         note="as C01; process liveness beyond the modelled loops (signals, memory) is out of scope.",
         design="DESIGN.md §5 C08",
         technique="Coq proof (total step function with explicit Crash constructor; case analysis + registration/frame invariants) + fault-injection correspondence"),
